@@ -109,17 +109,19 @@ pub assume_specification<T, A: core::alloc::Allocator> [std::vec::Vec::<T, A>::s
     requires new_len <= spec_capacity(old(v)), // [C04.fdw.set_len.in_bounds]
     ensures final(v)@.len() == new_len,
             forall|i: int| 0 <= i < new_len && i < old(v)@.len() ==> final(v)@[i] == old(v)@[i],
+            new_len >= old(v)@.len() ==> final(v)@.take(old(v)@.len() as int) == old(v)@,      // (the line above, for Seq::take)
             spec_capacity(final(v)) == spec_capacity(old(v)), vec_base(final(v)) == vec_base(old(v));
 // `V.extend_from_slice(D)` on such a Vec (ABSTRACT, logged): D must fit the capacity - otherwise the Vec would reallocate, i.e. hand memory
 // it does not own to the allocator - and then (std: no reallocation when the capacity suffices) only view and length change
 #[verifier::external_body] pub fn vx_extend_from_slice(v: &mut Vec<u8>, d: &[u8])
     requires old(v)@.len() + d@.len() <= spec_capacity(old(v)), // [C04.fdw.extend.in_bounds]
     ensures final(v)@ == old(v)@ + d@, same_alloc(final(v), old(v)),
+            final(v)@.take(old(v)@.len() as int) == old(v)@,      // (consequence of the first clause, stated for Seq::take)
 { unimplemented!() }
 // `&V[..N]` (ABSTRACT, logged): the first N elements; N <= len or the index panics
 #[verifier::external_body] pub fn vx_vec_prefix(v: &Vec<u8>, n: usize) -> (r: &[u8])
     requires n <= v@.len(), // [C04.fdw.prefix.in_bounds]
-    ensures r@ == v@.take(n as int),
+    ensures r@ == v@.take(n as int), n == v@.len() ==> r@ == v@,
 { unimplemented!() }
 
 // ---- raw pointers into the reply buffer (ABSTRACT, logged): a pointer knows its address, how many bytes remain up to the end of the
@@ -213,6 +215,15 @@ pub proof fn lemma_ios_take_next(s: Seq<IoSlice<'_>>, i: int)
     assert(s =~= s.take(i + 1) + s.skip(i + 1));
     lemma_ios_concat_append(s.take(i + 1), s.skip(i + 1));
 }
+// the concatenation of a two- / three-element slice array (async_write2 / async_write3 build one for writev)
+pub broadcast proof fn lemma_ios_concat_2(s: Seq<IoSlice<'_>>)
+    requires s.len() == 2
+    ensures #[trigger] ios_concat(s) =~= s[0].b@ + s[1].b@
+{ reveal_with_fuel(ios_concat, 3); assert(s.skip(1).skip(1).len() == 0); assert(s.skip(1)[0] == s[1]); }
+pub broadcast proof fn lemma_ios_concat_3(s: Seq<IoSlice<'_>>)
+    requires s.len() == 3
+    ensures #[trigger] ios_concat(s) =~= s[0].b@ + s[1].b@ + s[2].b@
+{ reveal_with_fuel(ios_concat, 4); assert(s.skip(1).skip(1).skip(1).len() == 0); assert(s.skip(1)[0] == s[1]); assert(s.skip(1).skip(1)[0] == s[2]); }
 '''
 
 SPEC = r'''
@@ -232,31 +243,21 @@ pub open spec fn other_bytes<'a, S: BitmapSlice>(other: Option<&Writer<'a, S>>) 
 # std::io::Write::write_all - the DEFAULT method FuseDevWriter inherits (library/std/src/io/mod.rs, `default_write_all`), copied by hand
 # (TRUSTED copy of std text; `e.is_interrupted()` written out as `e.kind() == ErrorKind::Interrupted`).  VERIFIED against its contract on
 # top of the extracted `write`.
-STD_WRITE_ALL = r'''
+def std_write_all():
+    c = c_write_all('write_all')
+    return '''
     #[verifier::exec_allows_no_decreases_clause] #[verifier::loop_isolation(false)]
     fn write_all(&mut self, data: &[u8], Tracked(dl): Tracked<&mut DevLog>) -> (r: io::Result<()>)     // std: `mut buf: &[u8]` (rebound below: a `mut` parameter has no name for its initial value)
         requires
-            data@.len() > 0 ==> old(self).buffered || old(self).buf@.len() == 0, // [C04.writer.assert]
-            data@.len() > 0 && !old(self).buffered && data@.len() <= old(self).cap() ==> dev_write_ok(old(self).fd, data@), // [C04.fdw.write_all.one_write]
+            %s
         ensures
-            final(self).frame_same(old(self)),
-            old(self).buf@.len() + data@.len() > old(self).cap() ==> r is Err && final(self).unchanged(old(self)) && final(dl).log == old(dl).log, // [C04.fdw.write_all.exceeds_fails]
-            r is Ok ==> final(self).grew_by(old(self), data@.len()), // [C04.fdw.write_all.amount]
-            r is Ok && old(self).buffered ==> final(self).buf@ == old(self).buf@ + data@ && final(dl).log == old(dl).log, // [C04.fdw.write_all.order]
-            r is Ok && !old(self).buffered && data@.len() > 0 ==> final(dl).log == old(dl).log.push(DevWrite { fd: old(self).fd, bytes: data@ }), // [C04.fdw.write_all.device]
-            r is Ok && data@.len() == 0 ==> final(dl).log == old(dl).log,
-            r is Err ==> final(self).unchanged(old(self)) && final(dl).log == old(dl).log, // [C04.fdw.write_all.err_nothing]
-            old(self).buffered && old(self).buf@.len() + data@.len() <= old(self).cap() ==> r is Ok,
+            %s
     {
         broadcast use axiom_capacity_bound;
         let mut buf = data; let ghost all = data@;
+        %s
         while !buf.is_empty()
-            invariant
-                buf@ == all || (buf@.len() == 0 && all.len() > 0),
-                buf@.len() == 0 && all.len() > 0 ==> self.grew_by(old(self), all.len()) && self.frame_same(old(self))
-                    && (old(self).buffered ==> self.buf@ == old(self).buf@ + all && dl.log == old(dl).log)
-                    && (!old(self).buffered ==> dl.log == old(dl).log.push(DevWrite { fd: old(self).fd, bytes: all })),
-                buf@.len() == all.len() ==> self.unchanged(old(self)) && dl.log == old(dl).log,
+            %s
         {
             match self.write(buf, Tracked(dl)) {
                 Ok(0) => { return Err(io::Error::new(io::ErrorKind::WriteZero, "failed to write whole buffer")); }
@@ -265,10 +266,17 @@ STD_WRITE_ALL = r'''
                 Err(e) => { return Err(e); }
             }
         }
-        proof { assert(old(self).buf@.take(old(self).buf@.len() as int) =~= old(self).buf@); assert(all.len() == 0 ==> old(self).buf@ + all =~= old(self).buf@); }
         Ok(())
     }
-'''
+''' % (_clauses(c['requires']), _clauses(c['ensures']), WRITE_ALL_HINT, WRITE_ALL_INV)
+
+
+def _clauses(cs):
+    out = []
+    for c in cs:
+        m = re.search(r'\s*(//\s*\[[^\n]*)$', c)
+        out.append((c[:m.start()].rstrip() + ', ' + m.group(1)) if m else c.rstrip() + ',')
+    return '\n            '.join(out)
 
 
 def wv_shape(root):
@@ -277,9 +285,10 @@ def wv_shape(root):
     annotations (ghost text) differ; the CONTRACT is the same.  Any other shape loses an anchor (exit 2)."""
     d = X.Source(root, F).find_fn(SWIO, 'write_vectored')
     b = X.mask(d['body'])
+    has_sum = re.search(r'\.\s*fold\s*\(\s*0\s*,\s*\|\s*acc\s*,\s*x\s*\|', b) is not None      # the up-front sum: a loop to annotate only if it is there
     if re.search(r'\bfor\s+b\s+in\s+bufs\s*\.\s*iter\s*\(\s*\)\s*\.\s*filter\s*\(', b) and re.search(r'\blet\s+mut\s+count\b', b):
-        return 'for'
-    return 'fold'
+        return 'for', has_sum
+    return 'fold', has_sum
 
 
 TOK = dict(param='Tracked(dl): Tracked<&mut DevLog>', arg='Tracked(dl)')
@@ -311,24 +320,104 @@ def space(op, amount, extra=''):
             % (amount, LOG_SAME, extra, op))
 
 
+def c_write(op, data='data@'):
+    """contract of a one-shot write of the byte string `data` (write / async_write / async_write2 / async_write3)"""
+    d = dict(op=op, D=data, same=LOG_SAME)
+    return dict(
+        requires=[ASSERT_PRE,
+                  '!old(self).buffered && %(D)s.len() <= old(self).cap() ==> dev_write_ok(old(self).fd, %(D)s) // [C04.fdw.%(op)s.one_write]' % d],
+        ensures=['final(self).frame_same(old(self))',
+                 space(op, '%(D)s.len()' % d),
+                 'r is Ok ==> r->Ok_0 == %(D)s.len() && final(self).grew_by(old(self), %(D)s.len()) // [C04.fdw.%(op)s.amount]' % d,
+                 'r is Ok && old(self).buffered ==> final(self).buf@ == old(self).buf@ + %(D)s && %(same)s // [C04.fdw.%(op)s.order]' % d,
+                 'r is Ok && !old(self).buffered ==> final(dl).log == old(dl).log.push(DevWrite { fd: old(self).fd, bytes: %(D)s }) // [C04.fdw.%(op)s.device]' % d,
+                 'r is Err ==> final(self).unchanged(old(self)) && %(same)s // [C04.fdw.%(op)s.err_nothing]' % d,
+                 'old(self).buffered && old(self).buf@.len() + %(D)s.len() <= old(self).cap() ==> r is Ok' % d])
+
+
+def c_write_all(op, data='data@'):
+    """contract of write_all / async_write_all (loops over the one-shot write until everything is written)"""
+    d = dict(op=op, D=data, same=LOG_SAME)
+    return dict(
+        requires=['%(D)s.len() > 0 ==> old(self).buffered || old(self).buf@.len() == 0 // [C04.writer.assert]' % d,
+                  '%(D)s.len() > 0 && !old(self).buffered && %(D)s.len() <= old(self).cap() ==> dev_write_ok(old(self).fd, %(D)s) // [C04.fdw.%(op)s.one_write]' % d],
+        ensures=['final(self).frame_same(old(self)) // [C04.fdw.%(op)s.frame]' % d,
+                 space(op, '%(D)s.len()' % d),
+                 'r is Ok ==> final(self).grew_by(old(self), %(D)s.len()) // [C04.fdw.%(op)s.amount]' % d,
+                 'r is Ok && old(self).buffered ==> final(self).buf@ == old(self).buf@ + %(D)s && %(same)s // [C04.fdw.%(op)s.order]' % d,
+                 'r is Ok && !old(self).buffered && %(D)s.len() > 0 ==> final(dl).log == old(dl).log.push(DevWrite { fd: old(self).fd, bytes: %(D)s }) // [C04.fdw.%(op)s.device]' % d,
+                 'r is Ok && %(D)s.len() == 0 ==> %(same)s // [C04.fdw.%(op)s.device]' % d,
+                 'r is Err ==> final(self).unchanged(old(self)) && %(same)s // [C04.fdw.%(op)s.err_nothing]' % d,
+                 'old(self).buffered && old(self).buf@.len() + %(D)s.len() <= old(self).cap() ==> r is Ok // [C04.fdw.%(op)s.fits_ok]' % d])
+
+
+# loop annotation shared by the std write_all and async_write_all (`buf` = what is left, `all` = the whole request)
+WRITE_ALL_INV = '''invariant
+                buf@ == all || (buf@.len() == 0 && all.len() > 0),
+                buf@.len() == 0 && all.len() > 0 ==> self.grew_by(old(self), all.len()) && self.frame_same(old(self))
+                    && (old(self).buffered ==> self.buf@ == old(self).buf@ + all && dl.log == old(dl).log)
+                    && (!old(self).buffered ==> dl.log == old(dl).log.push(DevWrite { fd: old(self).fd, bytes: all })), // [C04.fdw.write_all.loop.done]
+                buf@.len() == all.len() ==> self.unchanged(old(self)) && dl.log == old(dl).log, // [C04.fdw.write_all.loop.nothing_yet]'''
+WRITE_ALL_HINT = 'proof { assert(old(self).buf@.take(old(self).buf@.len() as int) =~= old(self).buf@); assert(all.len() == 0 ==> old(self).buf@ + all =~= old(self).buf@); }'
+
+
+def c_file_xfer(op):
+    """contract of a transfer of at most `count` bytes from a file (write_from / write_from_at / async_write_from_at)"""
+    return dict(
+        requires=[ASSERT_PRE,
+                  # the bytes come from the file: whatever it delivers (at most `count` bytes) may go to the device
+                  '!old(self).buffered ==> forall|b: Seq<u8>| b.len() <= count ==> dev_write_ok(old(self).fd, b) // [C04.fdw.%s.one_write]' % op],
+        ensures=['final(self).frame_same(old(self))',
+                 space(op, 'count'),
+                 'r is Ok ==> r->Ok_0 <= count && final(self).grew_by(old(self), r->Ok_0 as nat) // [C04.fdw.%s.amount]' % op,
+                 'old(self).buffered ==> %s // [C04.fdw.%s.device]' % (LOG_SAME, op),
+                 '''r is Ok && !old(self).buffered ==> final(dl).log == old(dl).log.push(DevWrite { fd: old(self).fd, bytes: final(self).buf@ }) // [C04.fdw.%s.device]''' % op,
+                 'r is Err && old(self).buffered ==> final(self).unchanged(old(self)) // [C04.fdw.%s.err_nothing]' % op])
+
+
+def base_fns(external=False):
+    """the accounting functions every writer operation is built on; external=True: signature + contract only (unit asyncdevw, which
+    assumes what this unit proves - same clause text)"""
+    kw = lambda **k: (dict(external_body=True, props=k.get('props', ())) if external else k)
+    return [
+        Fn(F, SC, 'bytes_written', ensures=['r == self.buf@.len() // [C04.writer.written]'], **kw(props=['C04'])),
+        Fn(F, SC, 'available_bytes', ensures=['r + self.buf@.len() == spec_capacity(&self.buf) // [C04.writer.available]'], **kw(props=['C04'])),
+        Fn(F, SC, 'check_available_space',
+           # the run-time assert!(self.buffered || self.buf.is_empty()) becomes this precondition (R5): the abstract Writer
+           # of the server unit carries the same clause, so no handler can trip it
+           requires=['self.buffered || self.buf@.len() == 0 // [C04.writer.assert]'],
+           ensures=['r is Ok <==> sz + self.buf@.len() <= spec_capacity(&self.buf) // [C04.writer.space]',
+                    'r is Err ==> r->Err_0.os_code() is None'],
+           **kw(props=['C04'], canary=True)),
+        Fn(F, SC, 'account_written',
+           requires=['old(self).buf@.len() + count <= old(self).cap() // [C04.fdw.account_written.in_bounds]'],
+           ensures=['final(self).frame_same(old(self))',
+                    'final(self).grew_by(old(self), count as nat) // [C04.fdw.account_written.amount]'],
+           **kw(splices=[('^', 'after', 'broadcast use axiom_capacity_bound;')], props=['C04'], canary=True)),
+    ]
+
+
+
 def writer_fns(root):
-    shape = wv_shape(root)
+    shape, has_sum = wv_shape(root)
     TOTAL = 'ios_concat(bufs@).len()'
     WV_ENTRY = 'broadcast use axiom_capacity_bound; proof { assert(bufs@.take(0) =~= Seq::<IoSlice<\'_>>::empty()); assert(bufs@.take(bufs@.len() as int) =~= bufs@); assert(self.buf@.take(self.buf@.len() as int) =~= self.buf@); }'
     SUM_LOOP = '''for x in it: bufs.iter()
-            invariant acc == ios_concat(bufs@.take(it.index@ as int)).len(), ios_concat(bufs@).len() <= usize::MAX, bufs@.take(bufs@.len() as int) =~= bufs@,
+            invariant ios_concat(bufs@).len() <= usize::MAX, bufs@.take(bufs@.len() as int) =~= bufs@,
+                acc == ios_concat(bufs@.take(it.index@ as int)).len(), // [C04.fdw.write_vectored.sum]
         { proof { lemma_ios_take_next(bufs@, it.index@ as int); }'''
-    APPEND_INV = '''self.frame_same(old(self)), self.buffered, dl.log == old(dl).log, bufs@.take(bufs@.len() as int) =~= bufs@,
-                %(n)s == ios_concat(bufs@.take(it.index@ as int)).len(), ios_concat(bufs@).len() <= usize::MAX,
-                self.buf@ =~= old(self).buf@ + ios_concat(bufs@.take(it.index@ as int)), // [C04.fdw.write_vectored.loop]'''
+    APPEND_INV = '''ios_concat(bufs@).len() <= usize::MAX, bufs@.take(bufs@.len() as int) =~= bufs@,
+                self.frame_same(old(self)) && self.buffered && dl.log == old(dl).log, // [C04.fdw.write_vectored.loop.frame]
+                %(n)s == ios_concat(bufs@.take(it.index@ as int)).len(), // [C04.fdw.write_vectored.loop.amount]
+                self.buf@ =~= old(self).buf@ + ios_concat(bufs@.take(it.index@ as int)), // [C04.fdw.write_vectored.loop.order]
+                self.buf@.take(old(self).buf@.len() as int) =~= old(self).buf@, // [C04.fdw.write_vectored.loop.order]'''
     if shape == 'fold':
         wv_splices = [('^', 'after', WV_ENTRY),
                       ('for x in bufs.iter() {', 'replace', SUM_LOOP),
                       ('for b in bufs.iter() {', 'replace', '''for b in it: bufs.iter()
-            invariant old(self).buf@.len() + ios_concat(bufs@).len() <= old(self).cap(),
+            invariant old(self).buf@.len() + ios_concat(bufs@).len() <= old(self).cap(), // [C04.fdw.write_vectored.loop.space]
                 ''' + APPEND_INV % dict(n='acc') + '''
         { proof { lemma_ios_take_next(bufs@, it.index@ as int); }'''),
-                      ('Ok(count)', 'before', 'proof { assert(self.buf@.take(old(self).buf@.len() as int) =~= old(self).buf@); }'),
                       ('|e|', 'closure', CLOSURE_E)]
     else:
         # the loop of the 'for' shape: nothing is known up front about the space (that is the point of [exceeds_fails])
@@ -338,21 +427,9 @@ def writer_fns(root):
             invariant
                 ''' + APPEND_INV % dict(n='count') + '''
         { proof { lemma_ios_take_next(bufs@, it.index@ as int); }'''),
-                      ('Ok(count)', 'before', 'proof { assert(self.buf@.take(old(self).buf@.len() as int) =~= old(self).buf@); }'),
                       ('|e|', 'closure', CLOSURE_E)]
-    file_xfer = lambda op: dict(
-        requires=[ASSERT_PRE,
-                  # the bytes come from the file: whatever it delivers (at most `count` bytes) may go to the device
-                  '!old(self).buffered ==> forall|b: Seq<u8>| b.len() <= count ==> dev_write_ok(old(self).fd, b) // [C04.fdw.%s.one_write]' % op],
-        ensures=['final(self).frame_same(old(self))',
-                 space(op, 'count'),
-                 'r is Ok ==> r->Ok_0 <= count && final(self).grew_by(old(self), r->Ok_0 as nat) // [C04.fdw.%s.amount]' % op,
-                 'old(self).buffered ==> %s // [C04.fdw.%s.device]' % (LOG_SAME, op),
-                 '''r is Ok && !old(self).buffered ==> final(dl).log == old(dl).log.push(DevWrite { fd: old(self).fd, bytes: final(self).buf@ }) // [C04.fdw.%s.device]''' % op,
-                 'r is Err && old(self).buffered ==> final(self).unchanged(old(self)) // [C04.fdw.%s.err_nothing]' % op],
-        splices=[('^', 'after', 'broadcast use axiom_capacity_bound; reveal_with_fuel(fv_total, 2);'),
-                 ('self.account_written(cnt);', 'before', 'proof { assert(cnt <= count); }'),
-                 ('if self.buffered {', 'before', 'proof { if !self.buffered { assert(self.buf@.take(cnt as int) =~= self.buf@); } }')])
+    if not has_sum:
+        wv_splices = [sp for sp in wv_splices if sp[0] != 'for x in bufs.iter() {']
     fns = [
         tok(Fn(F, SC, 'commit',
                # refinement of the abstract Writer::commit (prelude/transport.rs): buffered => ONE device write of own ++ other's
@@ -371,42 +448,15 @@ def writer_fns(root):
                         ('writev(self.fd, &bufs, Tracked(dl))', 'before', 'proof { assert(ios_concat(bufs@) =~= self.buf@ + o@) by { assert(bufs@.skip(1).skip(1).len() == 0); assert(bufs@.skip(1)[0] == bufs@[1]); } } // [C04.commit.order]'),
                         ('|e|', 'closure', '|e: Errno| -> (q: io::Error) ensures q.os_code() is Some')],
                props=['C04'], canary=True), free=['write', 'writev']),
-        Fn(F, SC, 'bytes_written', ensures=['r == self.buf@.len() // [C04.writer.written]'], props=['C04']),
-        Fn(F, SC, 'available_bytes', ensures=['r + self.buf@.len() == spec_capacity(&self.buf) // [C04.writer.available]'], props=['C04'],
-           sig_subst=[]),
-        Fn(F, SC, 'check_available_space',
-           # the run-time assert!(self.buffered || self.buf.is_empty()) becomes this precondition (R5): the abstract Writer
-           # of the server unit carries the same clause, so no handler can trip it
-           requires=['self.buffered || self.buf@.len() == 0 // [C04.writer.assert]'],
-           ensures=['r is Ok <==> sz + self.buf@.len() <= spec_capacity(&self.buf) // [C04.writer.space]',
-                    'r is Err ==> r->Err_0.os_code() is None'],
-           props=['C04'], canary=True),
-        Fn(F, SC, 'account_written',
-           requires=['old(self).buf@.len() + count <= old(self).cap() // [C04.fdw.account_written.in_bounds]'],
-           ensures=['final(self).frame_same(old(self))',
-                    'final(self).grew_by(old(self), count as nat) // [C04.fdw.account_written.amount]'],
-           splices=[('^', 'after', 'broadcast use axiom_capacity_bound;'),
-                    ('unsafe { self.buf.set_len(new_len) };', 'after', 'proof { assert(self.buf@.take(old(self).buf@.len() as int) =~= old(self).buf@); }')],
-           props=['C04'], canary=True),
+    ] + base_fns() + [
         tok(Fn(F, SC, 'do_write',
                requires=['dev_write_ok(fd, data@) // [C04.fdw.do_write.one_write]'],
                ensures=['r is Ok ==> r->Ok_0 == data@.len() && final(dl).log == old(dl).log.push(DevWrite { fd: fd, bytes: data@ }) // [C04.fdw.do_write.device]',
                         'r is Err ==> %s && r->Err_0.os_code() is None // [C04.fdw.do_write.err_nothing]' % LOG_SAME],
                splices=[('|e|', 'closure', CLOSURE_E)],
                props=['C04'], canary=True), free=['write']),
-        tok(Fn(F, SWIO, 'write',
-               requires=[ASSERT_PRE,
-                         '!old(self).buffered && data@.len() <= old(self).cap() ==> dev_write_ok(old(self).fd, data@) // [C04.fdw.write.one_write]'],
-               ensures=['final(self).frame_same(old(self))',
-                        space('write', 'data@.len()'),
-                        'r is Ok ==> r->Ok_0 == data@.len() && final(self).grew_by(old(self), data@.len()) // [C04.fdw.write.amount]',
-                        'r is Ok && old(self).buffered ==> final(self).buf@ == old(self).buf@ + data@ && %s // [C04.fdw.write.order]' % LOG_SAME,
-                        'r is Ok && !old(self).buffered ==> final(dl).log == old(dl).log.push(DevWrite { fd: old(self).fd, bytes: data@ }) // [C04.fdw.write.device]',
-                        'r is Err ==> final(self).unchanged(old(self)) && %s // [C04.fdw.write.err_nothing]' % LOG_SAME,
-                        'old(self).buffered && old(self).buf@.len() + data@.len() <= old(self).cap() ==> r is Ok'],
-               splices=[('^', 'after', 'broadcast use axiom_capacity_bound;'),
-                        ('Ok(data.len())', 'before', 'proof { assert(self.buf@.take(old(self).buf@.len() as int) =~= old(self).buf@); }')],
-               props=['C04'], canary=True), path=['do_write'], rules=('R31',)),
+        tok(Fn(F, SWIO, 'write', splices=[('^', 'after', 'broadcast use axiom_capacity_bound;')], props=['C04'], canary=True, **c_write('write')),
+            path=['do_write'], rules=('R31',)),
         tok(Fn(F, SWIO, 'write_vectored',
                requires=[ASSERT_PRE,
                          # the total must be a usize: the real fold adds with `+` (debug build: panic, release build: wrap-around)
@@ -435,8 +485,10 @@ def writer_fns(root):
                props=['C04'], canary=True), callees=['write_all']),
     ]
     for op, at in (('write_from', False), ('write_from_at', True)):
-        c = file_xfer(op)
-        fns.append(tok(Fn(F, SC, op, requires=c['requires'], ensures=c['ensures'], splices=c['splices'], props=['C04'], canary=True), path=['do_write']))
+        fns.append(tok(Fn(F, SC, op, props=['C04'], canary=True,
+                          splices=[('^', 'after', 'broadcast use axiom_capacity_bound; reveal_with_fuel(fv_total, 2);'),
+                                   ('self.account_written(cnt);', 'before', 'proof { assert(cnt <= count); } // [C04.fdw.%s.amount]' % op)],
+                          **c_file_xfer(op)), path=['do_write']))
     fns.append(tok(Fn(F, SC, 'write_all_from',
                       # a second round on an UNBUFFERED writer would trip the assert! of check_available_space (the first round has
                       # accounted bytes) after a partial message went to the device: only a buffered writer may be used (finding F1)
@@ -451,9 +503,10 @@ def writer_fns(root):
                       splices=[('while count > 0 {', 'replace', '''let ghost count0 = count; proof { assert(self.buf@.take(self.buf@.len() as int) =~= self.buf@); }
         while count > 0
             invariant
-                count <= count0, self.frame_same(old(self)), self.buffered, dl.log == old(dl).log,
-                old(self).buf@.len() + count0 <= old(self).cap(),
-                self.grew_by(old(self), (count0 - count) as nat), // [C04.fdw.write_all_from.loop]
+                count <= count0,
+                self.frame_same(old(self)) && self.buffered && dl.log == old(dl).log, // [C04.fdw.write_all_from.loop.frame]
+                old(self).buf@.len() + count0 <= old(self).cap(), // [C04.fdw.write_all_from.loop.space]
+                self.grew_by(old(self), (count0 - count) as nat), // [C04.fdw.write_all_from.loop.amount]
         {
             let ghost before = self.buf@;'''),
                                ('Ok(n) => count -= n,', 'replace', 'Ok(n) => { proof { assert(self.buf@.take(old(self).buf@.len() as int) =~= before.take(old(self).buf@.len() as int)); } count -= n },')],
@@ -496,7 +549,7 @@ def unit(root='/repo'):
         Copy('src/transport/mod.rs', r"pub enum Writer<'a, S", subst=[('S: BitmapSlice = ()', 'S: BitmapSlice')], prefix='#[verifier::reject_recursive_types(S)]'),
         Raw(SPEC),
         Group("impl<'a, S: BitmapSlice + Default> FuseDevWriter<'a, S> {", [new]),
-        Group("impl<'a, S: BitmapSlice> FuseDevWriter<'a, S> {", [split] + writer_fns(root) + [Raw(STD_WRITE_ALL)]),
+        Group("impl<'a, S: BitmapSlice> FuseDevWriter<'a, S> {", [split] + writer_fns(root) + [Raw(std_write_all())]),
     ] + refinement_items()
     return Unit('fusedevw', items, preludes=['base.rs'], generic_tags={'devwrite': ['C04']})
 
